@@ -52,9 +52,9 @@ def _assigned_names(node: ast.AST) -> list[str]:
     return out
 
 
-def _pure(expr: ast.AST) -> bool:
+def _pure(expr: ast.AST, extra: frozenset = frozenset()) -> bool:
     for n in ast.walk(expr):
-        if isinstance(n, ast.Call) and ast.unparse(n.func) not in PURE_CALLS:
+        if isinstance(n, ast.Call) and ast.unparse(n.func) not in PURE_CALLS and ast.unparse(n.func) not in extra:
             return False
         if isinstance(n, (ast.Await, ast.Yield, ast.YieldFrom, ast.NamedExpr, ast.Lambda, ast.ListComp, ast.DictComp,
                           ast.GeneratorExp, ast.SetComp)):
@@ -62,8 +62,9 @@ def _pure(expr: ast.AST) -> bool:
     return True
 
 
-def inline_temps(fn: ast.FunctionDef, keep: set[str] = frozenset()) -> ast.FunctionDef:
-    """see module docstring; `keep` names are never inlined (names the translators look for)"""
+def inline_temps(fn: ast.FunctionDef, keep: set[str] = frozenset(), extra_pure: frozenset = frozenset()) -> ast.FunctionDef:
+    """see module docstring; `keep` names are never inlined (names the translators look for); `extra_pure`: further
+    call targets the caller knows to be value functions (e.g. NumPy functions returning fresh arrays)"""
     fn = copy.deepcopy(fn)
     counts: dict[str, int] = {}
     for nm in _assigned_names(fn):
@@ -84,7 +85,7 @@ def inline_temps(fn: ast.FunctionDef, keep: set[str] = frozenset()) -> ast.Funct
                 name = st.targets[0].id
                 val = _Subst(env).visit(copy.deepcopy(st.value))
                 ops = {x.id for x in ast.walk(val) if isinstance(x, ast.Name)}
-                if (counts.get(name) == 1 and name not in keep and name not in params and _pure(val)
+                if (counts.get(name) == 1 and name not in keep and name not in params and _pure(val, extra_pure)
                         and not isinstance(val, (ast.Dict, ast.List, ast.Tuple, ast.Set, ast.Constant))
                         and not (ops & later_assigned(rest)) and name not in ops):
                     env[name] = val
